@@ -163,7 +163,7 @@ func checkWire(c wireCase) error {
 	if st == nil {
 		return fmt.Errorf("harness: unknown type %q", c.Type)
 	}
-	level, want, _ := expectation(st, c)
+	level, want, tags := expectation(st, c)
 	b := c.wire(st)
 	if _, ok := ref.Split(b); ok != (level != "malformed") {
 		return fmt.Errorf("harness: level %s but wire grammar says well-formed=%v (bytes %x)", level, ok, b)
@@ -245,7 +245,13 @@ func checkWire(c wireCase) error {
 			}
 			// the early output: a strict item sequence with one item per extension / unknown item
 			// (payload bytes may be the ones received), decoding to the same content
-			for _, pre := range [][]byte{preDet, preND} {
+			for k, pre := range [][]byte{preDet, preND} {
+				// KF-messageset-lazy-dup-item: several items for one registered type id, extension
+				// still held lazily, default options: the later occurrences are copied into the
+				// item as plain fields (recognised by exactly that shape in the output)
+				if k == 1 && i == 0 && tags["merge-same-id"] && lazyDupSignature(pre) && pbt.ExcludeKnown("KF-messageset-lazy-dup-item") {
+					continue
+				}
 				items, perr := parseItemsStrict(pre)
 				if perr != nil {
 					return fmt.Errorf("%s %s: Marshal output right after Unmarshal is not a sequence of well-formed items: %v (bytes %x, input %x)", implNames[i], st.name, perr, pre, b)
